@@ -9,7 +9,7 @@ from .skeletons import skeleton, U7, UN3, KINDS_SMALL, KINDS_MED
 from .mutate import mutate
 
 LEVEL = 'model_checking'
-BUDGET_S = {'quick': 170, 'thorough': 1800}
+BUDGET_S = {'quick': 260, 'thorough': 1800}
 BOUNDS = {
     'quick': 'universe U7; skeleton set A (+B2, B3 shapes named in the property); histories B.M.B.B.B: a committed build, '
              'one symbolic mutation (any kind, any of 8 paths incl. unobserved ones), a rebuild (justification oracle), '
@@ -41,7 +41,7 @@ def families(tier):
         {'name': 'A6', 'params': {'kinds': ['is_dir', 'list_dir'], 'mut_paths': ['in/x', 'o/z']}, 'weight': 3},
         {'name': 'B2', 'params': {'mut_paths': [], 'hist': 'BBB'}, 'weight': 3},
         # every query kind inside a failing (caught) build_file function, on its own fresh parent directory
-        {'name': 'B2', 'params': {'mut_paths': [], 'hist': 'BB', 'inner_kinds': ['get_size', 'exists', 'is_file', 'read_m', 'walk_bu', 'declare']}, 'weight': 2},
+        {'name': 'B2', 'params': {'mut_paths': [], 'hist': 'BB', 'inner_kinds': ['get_size', 'exists', 'read_m', 'walk_bu']}, 'weight': 2},
         {'name': 'B8', 'params': {'mut_paths': ['in/x', 'in/y', 'o/f']}, 'weight': 2},
         {'name': 'N3', 'params': {'hist': 'BBB', 'universe': UN3, 'kinds': ['is_dir', 'list_dir', 'exists'], 'roles': ['o', 'o/d', 'o/m'], 'mut_paths': []}, 'weight': 3},
     ]
